@@ -19,7 +19,21 @@ pub fn run_keyid(sc: &Value) -> Value {
     let r = match sc["key"].as_str().unwrap() {
         "ed25519" => PublicKey::from_ed25519_with_keyid_hash_algorithms(value, algs),
         "ecdsa" => PublicKey::from_ecdsa_with_keyid_hash_algorithms(value, algs),
-        "rsa" if default => { let mut p = tlv(6, &[0x2a,0x86,0x48,0x86,0xf7,0x0d,0x01,0x01,0x01]); p.extend([5u8, 0]); PublicKey::from_spki(&spki(&p, &value), SignatureScheme::RsaSsaPssSha256) }
+        k if k.starts_with("rsa") => {
+            let scheme = if k == "rsa512" { SignatureScheme::RsaSsaPssSha512 } else { SignatureScheme::RsaSsaPssSha256 };
+            let mut p = tlv(6, &[0x2a,0x86,0x48,0x86,0xf7,0x0d,0x01,0x01,0x01]); p.extend([5u8, 0]);
+            let der = spki(&p, &value);
+            if default { PublicKey::from_spki(&der, scheme) } else {
+                // other hash-algorithm lists: through the JSON form of the key (the public constructors fix the list)
+                let b64 = data_encoding::BASE64.encode(&der);
+                let mut pem = String::from("-----BEGIN PUBLIC KEY-----\n");
+                for c in b64.as_bytes().chunks(64) { pem.push_str(std::str::from_utf8(c).unwrap()); pem.push('\n'); }
+                pem.push_str("-----END PUBLIC KEY-----");
+                let mut doc = json!({"keytype":"rsa","scheme": if k == "rsa512" { "rsassa-pss-sha512" } else { "rsassa-pss-sha256" },"keyval":{"public":pem}});
+                if let Some(a) = &algs { doc["keyid_hash_algorithms"] = json!(a); }
+                return match serde_json::from_value::<PublicKey>(doc) { Ok(k) => json!({"outcome": format!("keyid:{}", keyid(&k))}), Err(e) => json!({"outcome": "err", "message": e.to_string()}) };
+            }
+        }
         _ => return json!({"outcome": "not-constructible-through-public-api"}),
     };
     match r { Ok(k) => json!({"outcome": format!("keyid:{}", keyid(&k))}), Err(e) => json!({"outcome": crate::err_name(&e)}) }
